@@ -83,6 +83,9 @@ func (g *gen) script(nc, self, to, lead int, size int) string {
 		case x < 20 && r.Intn(3) == 0:
 			a = append(a, []string{"z", "Z"}[r.Intn(2)])
 			g.h.Count("act:noise")
+		case x < 20 && r.Intn(2) == 0:
+			a = append(a, "S")
+			g.h.Count("act:session-set")
 		default:
 			if to != 0 {
 				a = append(a, fmt.Sprintf("n%d", g.h.Pick(5, 21, 25)))
@@ -133,6 +136,11 @@ func (g *gen) sweep() []string {
 				"go ms=3", "resume c=0", "go ms=3", "settle")
 		}
 	}
+	ops = append(ops, g.holdCase(1, 32000)...)
+	ops = append(ops, g.setCase(1)...)
+	ops = append(ops, g.setCase(2)...)
+	ops = append(ops, g.bcastCase(0, 296)...)
+	ops = append(ops, g.bcastCase(1, 296)...)
 	ops = append(ops, g.faultCase(1, 0, true, 1, false, 6)...)
 	ops = append(ops, g.faultCase(0, 2, true, 2, true, 9)...)
 	ops = append(ops, g.faultCase(2, 1, false, 1, false, 12)...)
@@ -186,6 +194,52 @@ func (g *gen) faultCase(to, to2 int, stalled bool, n int, partial bool, k int) [
 	}
 	ops = append(ops, fmt.Sprintf("req c=1 to=%d r=%d/p0,p1,r,p0,p1", to2, g.id(1)))
 	ops = append(ops, "go ms=5", "settle")
+	return ops
+}
+
+// the front-end does not get to its mailbox for longer than the 30 s request
+// timeout (+1 s expiry tick) — its goroutine sleeps right after answering a
+// front-local request — while a back-end's timers push to its clients: the
+// back-end's sys.pushmsg requests expire, the pushes are still queued at the
+// front and must be delivered once, in order, when it goes on
+func (g *gen) holdCase(back int, ms int) []string {
+	r := g.h.R
+	g.h.Count("case:front-held-31s")
+	g.nreq = map[int]int{}
+	ops := []string{"reset n=2"}
+	ops = append(ops, fmt.Sprintf("req c=0 to=%d r=%d/r,t20c0x%d,t40c1x%d,t25000c0x2", back, g.id(0), 1+r.Intn(4), 1+r.Intn(3)))
+	ops = append(ops, fmt.Sprintf("req c=1 to=0 r=%d/p1,r,s%d", g.id(1), ms))
+	ops = append(ops, "go ms=100", fmt.Sprintf("go ms=%d", ms+1500), "settle")
+	return ops
+}
+
+// a back-end handler stores something in its BackSession (Set, dirty, not
+// pushed) before answering, and the same service issues something for the same
+// client right afterwards: a push, or the response of a pipelined request
+func (g *gen) setCase(back int) []string {
+	r := g.h.R
+	g.h.Count("case:session-set-before-response")
+	g.nreq = map[int]int{}
+	ops := []string{"reset n=2"}
+	c := r.Intn(2)
+	ops = append(ops, fmt.Sprintf("req c=%d to=%d r=%d/p%d,S,r,p%d,p%d", c, back, g.id(c), c, c, 1-c))
+	ops = append(ops, fmt.Sprintf("req c=%d to=%d r=%d/S,r r=%d/r r=%d/p%d,S,r", c, back, g.id(c), g.id(c), g.id(c), c))
+	ops = append(ops, fmt.Sprintf("req c=%d to=0 r=%d/S,p%d,r,p%d", 1-c, g.id(1-c), 1-c, 1-c))
+	ops = append(ops, "go ms=3", "settle")
+	return ops
+}
+
+// a broadcast (one PushMessageByIds) to more connections than any fan-out
+// limit one might think of — `extra` unobserved connections of the front plus
+// four observed clients listed first, at #256, at #257 and last — followed at
+// once by another push / the response to a late-listed connection
+func (g *gen) bcastCase(to int, extra int) []string {
+	g.h.Count("case:broadcast-300")
+	g.nreq = map[int]int{}
+	ops := []string{fmt.Sprintf("reset n=4 extra=%d", extra)}
+	ops = append(ops, fmt.Sprintf("req c=3 to=%d r=%d/p3,M,p3,r,p2,M,p1,p0", to, g.id(3)))
+	ops = append(ops, fmt.Sprintf("req c=2 to=%d r=%d/M,r,p2", (to+1)%len(svcNames), g.id(2)))
+	ops = append(ops, "go ms=3", "settle")
 	return ops
 }
 
@@ -253,6 +307,12 @@ func (g *gen) genCase() []string {
 	x := r.Intn(100)
 	thorough := g.h.Thorough()
 	switch {
+	case x == 92:
+		return g.holdCase(1+r.Intn(3), g.h.Pick(31500, 32000, 35000))
+	case x == 91:
+		return g.bcastCase(r.Intn(len(svcNames)), g.h.Pick(253, 296, 340))
+	case x >= 88 && x < 91:
+		return g.setCase(1+r.Intn(3))
 	case x >= 93 && x < 97:
 		return g.sizeCase(r.Intn(len(svcNames)), r.Intn(len(svcNames)), r.Intn(3) != 0, 4+r.Intn(30))
 	case x >= 97:
